@@ -484,7 +484,10 @@ AnyCellmlElementPtr Annotator::AnnotatorImpl::convertToShared(const AnyCellmlEle
 void Annotator::AnnotatorImpl::buildIdList()
 {
     mIdList.clear();
-    mIdList = listIdsAndItems(mModel.lock());
+    auto model = mModel.lock();
+    if (model != nullptr) {
+        mIdList = listIdsAndItems(model);
+    }
 }
 
 size_t Annotator::AnnotatorImpl::idCount()
@@ -495,11 +498,10 @@ size_t Annotator::AnnotatorImpl::idCount()
 void Annotator::AnnotatorImpl::update()
 {
     removeAllIssues();
-    size_t hash = generateHash();
-    if (mHash != hash) {
-        buildIdList();
-        mHash = hash;
-    }
+    // The list records which objects carry the identifiers as well as the identifiers themselves;
+    // a hash over the identifier strings cannot tell when an item has been replaced by another
+    // with the same identifier, so the list is always rebuilt.
+    buildIdList();
 }
 
 void Annotator::setModel(const ModelPtr &model)
